@@ -50,9 +50,9 @@ def setup(w, tier):
 def bound_text(tier):
     if tier == "quick":
         return ("pairs TERM(2)xTERM(2) all routes + TERM(2)xTERM(3) both orders routes {lit,univ,chars}; pstr family "
-                "tails {[],X}; atoms; nums; 6 spine variants")
+                "6x6 routes, tails {[],X}; atoms; nums; 6 spine variants")
     return ("pairs TERM(3)xTERM(3) routes {lit,univ,chars} + TERM(2)xTERM(2) all 9 routes (lit,dq,univ,func,chars,copy,fa,asrt,sfx1); pstr family tails "
-            "{[],X,1,[1]}; atoms; nums; 12 spine variants")
+            "{[],X,[1]}; atoms; nums; 12 spine variants")
 
 
 # ---------------------------------------------------------------------------
@@ -63,6 +63,7 @@ R_Q22 = ["lit", "dq", "univ", "chars", "copy", "sfx1"]
 R_Q23 = ["lit", "univ", "chars"]
 R_T33 = ["lit", "univ", "chars"]
 R_PSTR = ["dq", "univ", "chars", "seg", "sfx1", "sfx3", "sfx8", "copy"]
+R_PSTR_Q = ["dq", "univ", "chars", "seg", "sfx1", "sfx3"]
 
 UNALIGNED = ("seg", "sfx1", "sfx3")    # routes that make compare_pstr_slices start inside a cell
 MISMATCH = [("a", "b"), ("a", "é"), ("é", "è"), ("é", "z"), ("€", "₭"), ("😀", "😁")]
@@ -151,11 +152,11 @@ def shards(tier):
             sh.append(("pairs", 2, 2, "FULL", i, min(n2, i + 6), 0))
         for i in range(0, n3, 4):
             sh.append(("pairs", 3, 3, "T33", i, min(n3, i + 4), 0))
-        tails = ["nil", "X", "one", "l1"]
+        tails = ["nil", "X", "l1"]
         spines = SPINE_T
     for tl in tails:
         for pi in range(len(pstr_prefixes())):
-            for ra in R_PSTR:
+            for ra in (R_PSTR_Q if tier == "quick" else R_PSTR):
                 sh.append(("pstr", tl, pi, ra))
     na = len(ATOM_FAM)
     for i in range(0, na, 4):
@@ -272,8 +273,9 @@ def gen(shard, tier):
         for (s1, s2) in pairs:
             a = T.str_term(s1, tail)
             b = T.str_term(s2, tail)
-            va = variants(a, R_PSTR, "_A")
-            vb = variants(b, R_PSTR, "_B")
+            rset = R_PSTR_Q if tier == "quick" else R_PSTR
+            va = variants(a, rset, "_A")
+            vb = variants(b, rset, "_B")
             for (ra, pa, ta) in va:
                 if ra != only_ra:
                     continue
